@@ -18,7 +18,7 @@ KANI = [
     H("c06_permutations_complete_n4", "for 4 distinct elements the callback sees exactly 4! pairwise distinct permutations", complete=True, timeout=900),
     H("c06_permutations_complete_n5", "for 5 distinct elements: exactly 5! pairwise distinct permutations", complete=True, timeout=1500),
     H("c06_permutations_error_stops", "the first Err of the callback is returned at once, no further call (n = 4, every failing position)", complete=True, timeout=900),
-    H("c06_permutations_complete_n6", "for 6 distinct elements (the default permutation limit): exactly 6! pairwise distinct permutations", complete=True, tiers=("thorough",), timeout=5400),
+    H("c06_permutations_complete_n6", "for 6 distinct elements (the default permutation limit): exactly 6! pairwise distinct permutations", complete=True, tiers=("thorough",), timeout=10800),  # measured: 6656 s
 ]
 
 
